@@ -187,6 +187,20 @@ pub fn get_executable_memory_slice<'s>(start: usize, mem_ptr: *const MemoryAreas
   }
 }
 
+/// Index into cartridge RAM for an offset into the 0xA000-0xBFFF window, or
+/// None where no RAM is mapped: a cartridge without RAM, or an offset beyond a
+/// RAM that is smaller than the window. The bank number is reduced to the
+/// banks the RAM actually has.
+fn cart_ram_index(memory_areas: &MemoryAreas, offset: usize) -> Option<usize> {
+  let ram_size = memory_areas.cart_ram.len();
+  if offset >= ram_size.min(0x2000) {
+    return None;
+  }
+  let bank_count = (ram_size / 0x2000).max(1);
+  let bank = memory_areas.cart_state.get_ram_bank() % bank_count;
+  Some(0x2000 * bank + offset)
+}
+
 fn create_buffer(size: usize) -> Box<[u8]> {
   let mut buffer = Vec::<u8>::with_capacity(size);
   for _ in 0..size {
@@ -211,7 +225,10 @@ pub extern "sysv64" fn memory_read_byte(areas: *const MemoryAreas, addr: u16) ->
   }
   if addr < 0xc000 { // Cart RAM
     let offset = addr as usize & 0x1fff;
-    return memory_areas.cart_ram[0x2000 * memory_areas.cart_state.get_ram_bank() + offset];
+    return match cart_ram_index(memory_areas, offset) {
+      Some(index) => memory_areas.cart_ram[index],
+      None => 0xff, // no RAM mapped here: open bus
+    };
   }
   if addr < 0xd000 { // Work RAM Bank 0
     let offset = addr as usize & 0xfff;
@@ -261,7 +278,9 @@ pub extern "sysv64" fn memory_write_byte(areas: *mut MemoryAreas, addr: u16, val
   }
   if addr < 0xc000 { // Cart RAM
     let offset = addr as usize & 0x1fff;
-    memory_areas.cart_ram[0x2000 * memory_areas.cart_state.get_ram_bank() + offset] = value;
+    if let Some(index) = cart_ram_index(memory_areas, offset) {
+      memory_areas.cart_ram[index] = value;
+    }
     return;
   }
   if addr < 0xd000 { // Work RAM Bank 0
